@@ -256,6 +256,47 @@ pub struct Scenario {
     pub lazy: bool,
 }
 
+/// File names that are not valid UTF-8: inside the simulator every path is a `String`; the private
+/// use character `U+F800 + b` stands for the raw byte `b` (`0x80..=0xFF`). Only bytes that are never
+/// part of a valid sequence (`0xFE`, `0xFF`) are generated, so that each is one invalid sequence of
+/// its own and the lossy conversion replaces each by exactly one `U+FFFD`.
+pub const BYTE_BASE: u32 = 0xF800;
+
+pub fn to_os(s: &str) -> std::ffi::OsString {
+    use std::os::unix::ffi::OsStringExt;
+    let mut bytes: Vec<u8> = Vec::with_capacity(s.len());
+    let mut buf = [0u8; 4];
+    for c in s.chars() {
+        let u = c as u32;
+        if (BYTE_BASE + 0x80..=BYTE_BASE + 0xFF).contains(&u) {
+            bytes.push((u - BYTE_BASE) as u8);
+        }
+        else {
+            bytes.extend_from_slice(c.encode_utf8(&mut buf).as_bytes());
+        }
+    }
+    std::ffi::OsString::from_vec(bytes)
+}
+
+pub fn from_os(o: &std::ffi::OsStr) -> String {
+    use std::os::unix::ffi::OsStrExt;
+    let mut out = String::new();
+    for chunk in o.as_bytes().utf8_chunks() {
+        out.push_str(chunk.valid());
+        for b in chunk.invalid() {
+            out.push(char::from_u32(BYTE_BASE + *b as u32).unwrap());
+        }
+    }
+    out
+}
+
+/// What `to_string_lossy` makes of a path the simulator spells `s`.
+pub fn lossy(s: &str) -> String {
+    s.chars()
+        .map(|c| if (BYTE_BASE + 0x80..=BYTE_BASE + 0xFF).contains(&(c as u32)) { '\u{FFFD}' } else { c })
+        .collect()
+}
+
 pub fn join(a: &str, b: &str) -> String {
     if a.is_empty() {
         b.to_string()
